@@ -33,7 +33,7 @@ def corpus_table(cfns):
     src = open(os.path.join(build.VERIF, 'corpus', 'lib.rs')).read().split('\n')
     out = {}
     for ln, text in enumerate(src, 1):
-        m = re.search(r'\b(struct|enum)\s+(\w+)\s*(<(.*?)>)?\s*(\(|\{|;|where)', text)
+        m = re.search(r'\b(struct|enum)\s+(?:r#)?(\w+)\s*(<(.*?)>)?\s*(\(|\{|;|where)', text)
         if not m or 'derive(TS)' not in text:
             continue
         name = m.group(2)
@@ -141,6 +141,7 @@ class Resolver:
         q = self.RX.match(callee)
         ty, meth = strip_lifetimes(q.group(1)), q.group(2)
         ty = re.sub(r'\b(?:std::num::)?NonZero<([ui])(\d+|size)>', lambda a: 'NonZero' + a.group(1).upper() + a.group(2), ty)
+        ty = re.sub(r'\br#(?=\w)', '', ty)        # raw identifiers name the same item
         if self.depth >= 1 and 'corpus' not in self.stack[1:] and 'dummy' not in self.stack[1:]:
             self.direct.append((ty, meth))
         if ty in self.abstract:
